@@ -202,7 +202,7 @@ func (f *fcall) pause(n int) {
 		f.lmu.Lock()
 		a := f.lat.Intn(3)
 		f.lmu.Unlock()
-		time.Sleep(time.Duration(1+a) * time.Millisecond)
+		time.Sleep(time.Duration(400+300*a) * time.Microsecond)
 		return
 	}
 	f.rec.delay()
@@ -958,6 +958,91 @@ func sharedGraph(r *common.Rand, tag uint64) *dag.Graph {
 	return g
 }
 
+// shared2 roles: node ids of the two-level sharing shape
+//
+//	R -> M1, G, G2 ;  M1 -> X ;  P -> X ;  G -> P, Q, S ;  G2 -> P
+//
+// P is a shared NON-LEAF node (claimed under one of G / G2, awaited by the other in another frame),
+// its successor X is claimed elsewhere (M1) and may be slow, Q is the sibling of P whose transfer
+// fails, S a slow sibling that keeps G's syncutil.Go from returning.
+type shared2Roles struct{ X, P, Q, S, M1, G, G2, R int }
+
+func shared2Graph(r *common.Rand, tag uint64) (*dag.Graph, shared2Roles, []int) {
+	g := &dag.Graph{}
+	blob := func(name string) int {
+		id := len(g.Nodes)
+		bs := []byte(fmt.Sprintf("shared2-%s-%d-%d-%d", name, tag, id, r.U64()))
+		g.Nodes = append(g.Nodes, &dag.Node{ID: id, Kind: dag.KBlob, Bytes: bs, Desc: fDesc(ocispec.MediaTypeImageLayer, bs), Subject: -1, TwinOf: -1})
+		return id
+	}
+	image := func(cfg int, layers ...int) int {
+		id := len(g.Nodes)
+		m := ocispec.Manifest{MediaType: ocispec.MediaTypeImageManifest, Config: g.Nodes[cfg].Desc, Layers: []ocispec.Descriptor{}}
+		m.SchemaVersion = 2
+		m.Annotations = map[string]string{"verif.shared2": fmt.Sprintf("%d-%d", tag, id)}
+		nd := &dag.Node{ID: id, Kind: dag.KImage, Subject: -1, TwinOf: -1, Succ: []int{cfg}, Annotations: m.Annotations}
+		for _, l := range layers {
+			m.Layers = append(m.Layers, g.Nodes[l].Desc)
+			nd.Succ = append(nd.Succ, l)
+		}
+		bs, _ := json.Marshal(m)
+		nd.Bytes, nd.Desc = bs, fDesc(m.MediaType, bs)
+		g.Nodes = append(g.Nodes, nd)
+		return id
+	}
+	index := func(members ...int) int {
+		id := len(g.Nodes)
+		ix := ocispec.Index{MediaType: ocispec.MediaTypeImageIndex, Manifests: []ocispec.Descriptor{}}
+		ix.SchemaVersion = 2
+		ix.Annotations = map[string]string{"verif.shared2": fmt.Sprintf("%d-%d", tag, id)}
+		nd := &dag.Node{ID: id, Kind: dag.KIndex, Subject: -1, TwinOf: -1}
+		for _, m := range members {
+			ix.Manifests = append(ix.Manifests, g.Nodes[m].Desc)
+			nd.Succ = append(nd.Succ, m)
+		}
+		bs, _ := json.Marshal(ix)
+		nd.Bytes, nd.Desc = bs, fDesc(ix.MediaType, bs)
+		g.Nodes = append(g.Nodes, nd)
+		return id
+	}
+	var ro shared2Roles
+	var extra []int // descendants of S / X: more candidates for "slow"
+	ro.X = blob("x")
+	// Q and S: a blob, or a small image manifest (then its config is a further place for the fault / the delay)
+	mk := func(name string) (int, int) {
+		b := blob(name)
+		if r.Bool() {
+			return image(b), b
+		}
+		return b, -1
+	}
+	var qc, sc int
+	ro.Q, qc = mk("q")
+	ro.S, sc = mk("s")
+	_ = qc
+	if sc >= 0 {
+		extra = append(extra, sc)
+	}
+	if r.Chance(1, 3) {
+		ro.P = image(ro.X, blob("pl"))
+	} else {
+		ro.P = image(ro.X)
+	}
+	ro.M1 = image(ro.X)
+	gm := []int{ro.P, ro.Q, ro.S}
+	common.Shuffle(r, gm)
+	ro.G = index(gm...)
+	if r.Chance(1, 3) {
+		ro.G2 = index(ro.P, image(blob("g2c")))
+	} else {
+		ro.G2 = index(ro.P)
+	}
+	rm := []int{ro.M1, ro.G, ro.G2}
+	common.Shuffle(r, rm)
+	ro.R = index(rm...)
+	return g, ro, extra
+}
+
 func distinctDigests(g *dag.Graph) bool {
 	seen := map[string]bool{}
 	for _, n := range g.Nodes {
@@ -976,6 +1061,9 @@ var fOps = []string{"exists", "exists", "fetch", "fetch", "push", "push", "push"
 func GenerateF(genseed uint64, stream string, thorough bool) *FCase {
 	r := common.NewRand(genseed)
 	c := &FCase{Stream: stream, GenSeed: genseed, Thorough: thorough}
+	if stream == "shared2" || stream == "schedshared2" {
+		return generateShared2(r, c)
+	}
 	var g *dag.Graph
 	shared := stream == "shared" || stream == "schedshared" || ((stream == "exh") && r.Chance(1, 2))
 	for {
@@ -1149,6 +1237,61 @@ func GenerateF(genseed uint64, stream string, thorough bool) *FCase {
 	return c
 }
 
+// generateShared2: two-level sharing.  The transfer of Q (a sibling of the shared non-leaf node P)
+// fails while P waits for its successor X, which was claimed elsewhere; S keeps the group of
+// P's parent G busy, so that the other parent G2 (another frame, context not yet cancelled) looks at
+// P's done channel.  The property demands that G2 is NOT pushed (P is absent).
+func generateShared2(r *common.Rand, c *FCase) *FCase {
+	g, ro, extra := shared2Graph(r, c.GenSeed)
+	c.Graph = g.Encode()
+	c.Seed = r.U64()
+	c.API = common.Pick(r, []string{"g", "g", "g", "t", "x"})
+	c.Root = ro.R
+	if c.API == "x" {
+		c.Root = common.Pick(r, []int{ro.X, ro.P, ro.Q})
+	}
+	c.K = common.Pick(r, []int{8, 8, 8, 4, 0, 3})
+	c.Src = common.Pick(r, []string{"mem", "mem", "mem", "oci"})
+	c.Dst = common.Pick(r, []string{"mem", "mem", "mem", "oci"})
+	c.Sched = c.Stream == "schedshared2"
+	// the failing transfer: Q itself, or a successor of Q (then Q's own syncutil.Go fails)
+	fn := ro.Q
+	if su := g.Nodes[ro.Q].Succ; len(su) > 0 && r.Chance(1, 3) {
+		fn = su[0]
+	}
+	op := common.Pick(r, []string{"push", "push", "push", "fetch", "exists", "pre", "post"})
+	c.Faults = []Fault{{Op: op, Node: fn, After: r.Bool() && op != "push"}}
+	// slow: the grandchild claimed elsewhere and the other sibling (+ its descendants), sometimes M1 too
+	switch v := r.Intn(8); {
+	case v < 4:
+		// X (claimed elsewhere) is slow: P sits in its wait when its context is cancelled
+		c.Slow = append(c.Slow, ro.X)
+	case v < 6:
+		// P itself is late: when it reaches its wait, X is done AND its context is cancelled (the select may
+		// take either arm; after the done arm, region.Start fails)
+		c.Slow = append(c.Slow, ro.P)
+	default:
+		// few permits, all held by Q (about to fail) and the slow S: P is blocked in region.Start when
+		// its context is cancelled
+		c.K = common.Pick(r, []int{2, 2, 3})
+		if op == "exists" || op == "pre" {
+			c.Faults[0].Op = "push"
+			c.Faults[0].After = false
+		}
+	}
+	if r.Chance(7, 8) {
+		c.Slow = append(c.Slow, ro.S)
+		c.Slow = append(c.Slow, extra...)
+	}
+	if r.Chance(1, 4) {
+		c.Slow = append(c.Slow, ro.M1)
+	}
+	if r.Chance(1, 8) {
+		c.Faults = append(c.Faults, Fault{Op: common.Pick(r, fOps), Node: common.Pick(r, []int{ro.S, ro.X, ro.M1, ro.G2}), After: r.Bool(), Cancel: r.Chance(1, 3)})
+	}
+	return c
+}
+
 // allPlacements: every single fault placement of the case (thorough "exh" stream).
 func allPlacements(c *FCase, g *dag.Graph) []Fault {
 	roots := FRoots(c, g)
@@ -1264,6 +1407,7 @@ type fReplayDoc struct {
 // FBudget of one harness run.
 type FBudget struct {
 	Rand, Shared      int // free-running cases
+	Shared2, SchedShared2 int // two-level sharing (a shared non-leaf node), free-running / controlled
 	Sched, SchedShared int // controlled schedules (test binary only)
 	Reps              int // extra schedules per generated case
 	Exh               int // base cases whose every single fault placement is run (x ExhReps schedules)
@@ -1466,9 +1610,11 @@ func DriveF(run *common.Run, b FBudget) {
 	}
 	stream("rand", b.Rand, b.Reps)
 	stream("shared", b.Shared, b.Reps)
+	stream("shared2", b.Shared2, b.Reps)
 	if T != nil {
 		stream("sched", b.Sched, b.Reps)
 		stream("schedshared", b.SchedShared, b.Reps)
+		stream("schedshared2", b.SchedShared2, b.Reps)
 	}
 	for i := 0; i < b.Exh; i++ {
 		base := GenerateF(rootRand.U64(), "exh", run.Thorough())
@@ -1557,6 +1703,9 @@ func FParent() int {
 		return 1
 	}
 	msg := errb.String()
+	if strings.Contains(msg, "harness setup failed") {
+		return 1 // (an unwritable TMPDIR, a malformed replay ...: a harness problem, not a verdict about the code)
+	}
 	sig := "crash"
 	if strings.Contains(msg, "deadlock") {
 		sig = "hang"
